@@ -24,9 +24,10 @@ def typeOf (sig : Sig) (vty : Var → Ty) : Expr → Option Ty
   | .cast ty e =>
     match typeOf sig vty e with
     | none => none
-    | some te =>
-      if ty = .lit ∨ ty = .flit then (if te = ty then some ty else none)
-      else some ty
+    | some _ =>
+      -- a cast to a literal type has no spelling: the exporter drops it; such casts (the type checker creates them
+      -- for `literal op bool` and similar) are outside the theorems (see known finding `2147483647 + t`)
+      if ty = .lit ∨ ty = .flit then none else some ty
   | .tern c t f =>
     match typeOf sig vty c, typeOf sig vty t, typeOf sig vty f with
     | some .bool, some tt, some tf => if tt = tf then some tt else none
